@@ -118,11 +118,7 @@ Example ex_unlimited : let cfg0 := mkCfg 0 false (mkG true 0) 2 in
                    LBuild; LSelect; LBody (Some 0); LBuild]%N)) = PSelect [1; 0; 2]%N true.
 Proof. vm_compute. reflexivity. Qed.
 
-(* The STRONGER reading of "bounds request size" -- no request whose body can exceed max_content_length reaches a
-   handler -- does not hold for the code as it is: a negative declared length passes the check (it is truthy and
-   not greater than the limit), and the handlers then call read(n) with n < 0, i.e. read until EOF. *)
-Example ex_negative_length_dispatched : exists g r z, internal g = true /\ 0 < max_len g /\ r_cl r = ClInt z /\ z < 0 /\
-  gate g r = GDispatch.
-Proof.
-  exists (mkG true 1000), (mkReq PrefOk true WkNone AuthAnon (ClInt (-1))), (-1). vm_compute. repeat split; reflexivity.
-Qed.
+(* with the negative-length fix a negative declared length is answered 400 by the gate *)
+Example ex_negative_length_rejected :
+  gate (mkG true 1000) (mkReq PrefOk true WkNone AuthAnon (ClInt (-1))) = GEarly 400.
+Proof. vm_compute. reflexivity. Qed.
